@@ -142,6 +142,7 @@ func (w *World) Open(dir string) (err error) {
 	// arena is chunked and grows on demand, so a 1 MiB arena only makes runs
 	// ~30x cheaper (knob 0 keeps the shipped size).
 	verifhook.Set("lsm.arena-size", int(w.C.CfgInt("arena_size", 1<<20)))
+	verifhook.Set("wal.buffer-size", int(w.C.CfgInt("wal_buffer", 0))) // 0 = shipped 256 KiB
 	verifhook.Set("db.commit-queue-cap", int(w.C.CfgInt("commit_queue_cap", 0)))
 	verifhook.Set("txn.sort-entries", 1)
 	w.Sched = sim.NewSched(sim.NewRand(w.C.Seed, w.C.Run, 1), w.C.Sched, nil)
